@@ -2,7 +2,7 @@
 REG_DRAFT = dict(
     engine='E1-enum',
     technique='exhaustive enumeration of test files (every sequence of <=3 tests over 7 test kinds) x every name filter x one- and two-file invocations, run through the real `garden test` and compared with the single-test runs',
-    text="Every sequence of 1..3 tests over 7 kinds (pass; assertion failure; exception three frames deep; exception inside nested blocks with locals; test defining locals that shadow a global function and a name another test reads; test calling the global function another test shadows; test reading a variable only another test defines) is written to a file and run with no filter, the empty filter, every substring of every test name (names are chosen so that these are exactly 6 strings selecting every 1- and 2-element subset) and a filter matching nothing; two-file invocations split the same sequences over two files (1+1 in quick; 1+2 and 2+1 in thorough). Oracle, from the statement: exit status != 0 iff a selected test is reported failed; the summary line's total equals the number of tests whose name contains the filter and its passed/failed counts equal the reported verdicts; each test's verdict equals its verdict when run alone with `-n <its name>`.",
+    text="Every sequence of 1..3 tests over 7 kinds (pass; assertion failure; exception three frames deep; exception inside nested blocks with locals; test defining locals that shadow a global function and a name another test reads; test calling the global function another test shadows; test reading a variable only another test defines) is written to a file and run with no filter, the empty filter, every substring of every test name (names are chosen so that these are exactly 6 strings selecting every 1- and 2-element subset) and a filter matching nothing (quick: 3-test files only unfiltered and one test at a time); two-file invocations split the same sequences over two files (1+1 in quick; 1+2 and 2+1 in thorough). Oracle, from the statement: exit status != 0 iff a selected test is reported failed; the summary line's total equals the number of tests whose name contains the filter and its passed/failed counts equal the reported verdicts; each test's verdict equals its verdict when run alone with `-n <its name>`.",
     note='`garden test` prints only failed tests, so a passed verdict is "selected and not listed as failed". "No tests found." with exit 0 is accepted when nothing is selected. Tests hitting resource limits are not generated: `garden test` sets no limits.',
     design_ref='DESIGN.md §6 C26',
 )
@@ -95,9 +95,13 @@ def run(ctx):
         n = sum(len(f) for f in files)
         names = NAMES[:n]
         filters = [None, ""] + all_substrings(names) + [NOMATCH]
+        if ctx.quick and n == 3 and len(files) == 1:
+            filters = [None] + names          # quick: 3-test files run unfiltered and each test alone; every filter on the <=2-test files
         for flt in filters:
             jobs.append((li, flt))
 
+    if os.environ.get("GV_COUNT_ONLY"):      # development aid: size of the enumeration without running it
+        raise Machinery(f"count only: {len(jobs)} processes")
     def do_layout(li):
         files = layouts[li]
         d = os.path.join(root, f"l{li}")
